@@ -73,4 +73,22 @@ Fixpoint search (fuel : nat) (st : kvs) (rem : list lop) : bool :=
       end
   end.
 
-Definition lin_check (h : list lop) : bool := search (length h) [] h.
+(** The same search with lazy connectives: [vm_compute] is call-by-value, so
+    [andb]/[orb]/[existsb] would evaluate every branch. *)
+Fixpoint any_pick {A} (f : A -> bool) (l : list A) : bool :=
+  match l with [] => false | x :: l' => if f x then true else any_pick f l' end.
+
+Fixpoint search_fast (fuel : nat) (st : kvs) (rem : list lop) : bool :=
+  match rem with
+  | [] => true
+  | _ =>
+      match fuel with
+      | O => false
+      | S f => any_pick (fun p => if minimal (fst p) (snd p) then
+                                    if legal st (fst p) then search_fast f (apply_op st (fst p)) (snd p)
+                                    else false
+                                  else false) (picks rem)
+      end
+  end.
+
+Definition lin_check (h : list lop) : bool := search_fast (length h) [] h.
